@@ -91,6 +91,9 @@ func c14run(idx int) run.Result {
 	r := rng.New(c14.seed, rng.Str("C14"), uint64(idx))
 	st := refstore.New()
 	srv := newServer(st)
+	if idx%3 == 2 {
+		srv.SetRequirePass(c08pass)
+	}
 	port := 0
 	for attempt := 0; attempt < 10; attempt++ {
 		port = freePort()
@@ -106,7 +109,8 @@ func c14run(idx int) run.Result {
 	}
 	nClients := 2 + r.Intn(31)
 	lifecycle := r.Chance(1, 2)
-	res.Classes = []string{fmt.Sprintf("lifecycle=%v", lifecycle)}
+	password := idx%3 == 2 // a third of the rounds require a password: AUTH runs the authenticators concurrently
+	res.Classes = []string{fmt.Sprintf("lifecycle=%v", lifecycle), fmt.Sprintf("password=%v", password)}
 	res.Key = gen.Hash64([]byte(fmt.Sprint(idx, nClients, lifecycle)))
 	res.NonTrivial = true
 	var exchanges, dials, dialErrs int64
@@ -135,7 +139,18 @@ func c14run(idx int) run.Result {
 				tc := conn.(*net.TCPConn)
 				tc.SetDeadline(time.Now().Add(5 * time.Second))
 				cl := &tcpClient{c: tc}
-				for _, req := range c14commands(cr, tag, 1+cr.Intn(8)) {
+				cmds := c14commands(cr, tag, 1+cr.Intn(8))
+				if password {
+					// some clients authenticate (rightly or wrongly) first, some never do
+					switch cr.Intn(4) {
+					case 0:
+					case 1:
+						cmds = append([]resp.Value{resp.Cmd("AUTH", "wrong")}, cmds...)
+					default:
+						cmds = append([]resp.Value{resp.Cmd("AUTH", c08pass)}, cmds...)
+					}
+				}
+				for _, req := range cmds {
 					if _, err := tc.Write(resp.Encode(req)); err != nil {
 						break
 					}
@@ -256,12 +271,12 @@ func init() {
 	run.Register(&run.Prop{
 		ID: "C14", Level: "exploration",
 		Rule: func(tier string) string {
-			return "case = one workload round executed in a child built with the Go race detector (GORACE halt_on_error=0; the parent parses every 'WARNING: DATA RACE' block from the child's stderr and does not trust exit codes): a server with a mutex-guarded reference store as handler on a real loopback listener; 2..32 TCP clients with connection churn, every command family, CONFIG SET/GET on shared and private keys, SELECT, and endings by close, RST, half-close and mid-request cut; two goroutines serving scripted connections through hook H1; a control goroutine enumerating Conns()/ConnByUUID and reading configuration; in half of the rounds a goroutine calling Restart or Stop+Start three times while clients are active. Oracle: a report counts iff the innermost non-runtime frame of either access stack is in github.com/cybergarage/go-redis/redis[/...]; reports are reduced to an unordered pair of access functions (line numbers stripped, closures normalised) and de-duplicated; a child dying with 'fatal error: concurrent map ...' is a violation. Self-check: a planted harness-side race must be reported in every run (detector active). distinct = round index (every round is a different seeded workload and schedule)"
+			return "case = one workload round executed in a child built with the Go race detector (GORACE halt_on_error=0; the parent parses every 'WARNING: DATA RACE' block from the child's stderr and does not trust exit codes): a server with a mutex-guarded reference store as handler on a real loopback listener; 2..32 TCP clients with connection churn, every command family, CONFIG SET/GET on shared and private keys, SELECT, AUTH with right and wrong passwords (a third of the rounds require a password), and endings by close, RST, half-close and mid-request cut; two goroutines serving scripted connections through hook H1; a control goroutine enumerating Conns()/ConnByUUID and reading configuration; in half of the rounds a goroutine calling Restart or Stop+Start three times while clients are active. Oracle: a report counts iff the innermost non-runtime frame of either access stack is in github.com/cybergarage/go-redis/redis[/...]; reports are reduced to an unordered pair of access functions (line numbers stripped, closures normalised) and de-duplicated; a child dying with 'fatal error: concurrent map ...' is a violation. Self-check: a planted harness-side race must be reported in every run (detector active). distinct = round index (every round is a different seeded workload and schedule)"
 		},
 		Assumptions: []string{"the race detector only reports races on accesses that executed and were unordered in that run: a clean run is not race freedom"},
 		Setup: func(tier string, seed uint64) int {
 			c14.seed, c14.tier = seed, tier
-			return map[string]int{"quick": 48, "thorough": 800}[tier]
+			return map[string]int{"quick": 96, "thorough": 2400}[tier]
 		},
 		Run:           c14run,
 		Describe:      func(idx int) any { return map[string]any{"sig": "round", "round": idx} },
